@@ -34,6 +34,9 @@ func init() {
     leaf flag { type boolean; }
     leaf lv { type lvl; }
     leaf name { type string; default "b"; }
+    leaf dc { type decimal64 { fraction-digits 2; } }
+    leaf zdc { when "dc>1"; type string; }
+    leaf zde { when "dc=1.5"; type string; }
     leaf x { when "sel>5"; type string; }
     leaf y { when "sel<=5"; type string; }
     leaf zu8 { when "u8>=128"; type string; }
@@ -55,6 +58,7 @@ func init() {
     leaf v { type int32; }
     leaf t { type string; }
     leaf big { type uint64; }
+    leaf d { type decimal64 { fraction-digits 2; } }
     leaf w { when "v!=3"; type string; }
     container pc {
       when "pv>1";
@@ -94,6 +98,7 @@ func init() {
     leaf level { type int32; }
     leaf who { type string; }
     leaf cnt { type uint64; }
+    leaf ratio { type decimal64 { fraction-digits 2; } }
   }
 }`
 }
